@@ -424,6 +424,28 @@ theorem addTail_GN {p : Pool} (hgood : Good Φ p) (h : GN p) (t : Tx) (isLocal l
         | exact h
         | exact h1.frame rfl rfl rfl
 
+theorem addRoom_GN {p : Pool} (hgood : Good Φ p) (hpq : Φ.PQ) (h : GN p) (t : Tx) (isLocal loc : Bool) :
+    ∀ r ∈ p.addRoom t isLocal loc, GN r.1 := by
+  intro r hr
+  unfold addRoom at hr
+  simp only at hr
+  split at hr
+  · split at hr
+    · simp at hr; subst hr; exact h
+    · split at hr
+      · simp at hr; subst hr; exact h
+      · simp only [List.mem_map] at hr
+        obtain ⟨d, _, hd⟩ := hr
+        cases d with
+        | none => simp at hd; subst hd; exact h
+        | some drop =>
+          simp only at hd
+          subst hd
+          have h0 : Good Φ ({ p with changes := p.changes + drop.length } : Pool) := hgood.frame rfl rfl rfl
+          have g0 : GN ({ p with changes := p.changes + drop.length } : Pool) := h.frame rfl rfl rfl
+          exact addTail_GN (good_removeL h0 hpq drop) (removeL_GN g0 drop) t _ loc
+  · simp at hr; subst hr; exact addTail_GN hgood h t _ loc
+
 theorem add_GN {p : Pool} (hgood : Good Φ p) (hpq : Φ.PQ) (h : GN p) (t : Tx) (loc : Bool) :
     ∀ r ∈ p.add t loc, GN r.1 := by
   intro r hr
@@ -434,21 +456,8 @@ theorem add_GN {p : Pool} (hgood : Good Φ p) (hpq : Φ.PQ) (h : GN p) (t : Tx) 
     split at hr
     · simp at hr; subst hr; exact h
     · split at hr
-      · split at hr
-        · simp at hr; subst hr; exact h
-        · split at hr
-          · simp at hr; subst hr; exact h
-          · simp only [List.mem_map] at hr
-            obtain ⟨d, _, hd⟩ := hr
-            cases d with
-            | none => simp at hd; subst hd; exact h
-            | some drop =>
-              simp only at hd
-              subst hd
-              have h0 : Good Φ ({ p with changes := p.changes + drop.length } : Pool) := hgood.frame rfl rfl rfl
-              have g0 : GN ({ p with changes := p.changes + drop.length } : Pool) := h.frame rfl rfl rfl
-              exact addTail_GN (good_removeL h0 hpq drop) (removeL_GN g0 drop) t _ loc
-      · simp at hr; subst hr; exact addTail_GN hgood h t _ loc
+      · simp at hr; subst hr; exact h
+      · exact addRoom_GN hgood hpq h t _ loc r hr
 
 /-! ## promotion -/
 
@@ -862,6 +871,26 @@ theorem PStrict_addTail {p : Pool} (h : PStrict p) (t : Tx) (isLocal loc : Bool)
     | exact h2.frame rfl
     | exact h1.frame rfl
 
+theorem PStrict_addRoom {p : Pool} (h : PStrict p) (t : Tx) (isLocal loc : Bool) :
+    ∀ r ∈ p.addRoom t isLocal loc, PStrict r.1 := by
+  intro r hr
+  unfold addRoom at hr
+  simp only at hr
+  split at hr
+  · split at hr
+    · simp at hr; subst hr; exact h
+    · split at hr
+      · simp at hr; subst hr; exact h
+      · simp only [List.mem_map] at hr
+        obtain ⟨d, _, hd⟩ := hr
+        cases d with
+        | none => simp at hd; subst hd; exact h
+        | some drop =>
+          simp only at hd
+          subst hd
+          exact PStrict_addTail (PStrict_removeL (h.frame (p' := { p with changes := p.changes + drop.length }) rfl) drop) t _ loc
+  · simp at hr; subst hr; exact PStrict_addTail h t _ loc
+
 theorem PStrict_add {p : Pool} (h : PStrict p) (t : Tx) (loc : Bool) : ∀ r ∈ p.add t loc, PStrict r.1 := by
   intro r hr
   unfold add at hr
@@ -871,19 +900,8 @@ theorem PStrict_add {p : Pool} (h : PStrict p) (t : Tx) (loc : Bool) : ∀ r ∈
     split at hr
     · simp at hr; subst hr; exact h
     · split at hr
-      · split at hr
-        · simp at hr; subst hr; exact h
-        · split at hr
-          · simp at hr; subst hr; exact h
-          · simp only [List.mem_map] at hr
-            obtain ⟨d, _, hd⟩ := hr
-            cases d with
-            | none => simp at hd; subst hd; exact h
-            | some drop =>
-              simp only at hd
-              subst hd
-              exact PStrict_addTail (PStrict_removeL (h.frame (p' := { p with changes := p.changes + drop.length }) rfl) drop) t _ loc
-      · simp at hr; subst hr; exact PStrict_addTail h t _ loc
+      · simp at hr; subst hr; exact h
+      · exact PStrict_addRoom h t _ loc r hr
 
 theorem PStrict_addBatch (txs : List Tx) {p : Pool} (h : PStrict p) (loc : Bool) :
     ∀ r ∈ p.addBatch loc txs, PStrict r.1 := by
